@@ -123,6 +123,12 @@ pub fn execute_program(
             && let Some(usage) = stack_usage.stack_usage_for_local_func(insn_ptr) {
                 stacks[stack_frame_idx].set_stack_usage(usage);
             }
+        #[cfg(all(rbpf_verif, feature = "std"))]
+        if !crate::verif::step(insn_ptr, &reg, stack_frame_idx, stack.as_ptr()) {
+            return Err(Error::other(
+                "Error: instruction budget exhausted (verification hook)",
+            ));
+        }
         insn_ptr += 1;
         let _dst = insn.dst as usize;
         let _src = insn.src as usize;
